@@ -10,6 +10,7 @@ verus! {
 //@include prelude/xxh3.rs
 //@include spec/byte_lemmas.rs
 //@include spec/journal_format.rs
+//@include spec/ops.rs
 //@include spec/batch_format.rs
 //@include prelude/paths.rs
 //@broadcast axioms::array_slice_eq_spec, lz4_axioms::lz4_bound, byte_lemmas::group_le_len
